@@ -42,6 +42,26 @@ type Frame struct {
 	params  map[string]CVal // contract-visible names at entry
 	loopPre map[*ssa.BasicBlock]*State
 	chain   []string // inline call chain (function keys) for recursion guard
+	region  *regionSpec
+	stopAt  *ssa.BasicBlock // commutativity mode: stop the walk after establishing this loop header
+	stopped bool
+}
+
+// regionSpec restricts encodeBody to one iteration of a map-range loop (commutativity obligations).
+type regionSpec struct {
+	blocks  map[*ssa.BasicBlock]bool
+	header  *ssa.BasicBlock
+	next    *ssa.Next
+	ok, key string
+	phiVals map[*ssa.Phi]string
+	outs    []regionOut
+	exits   []string
+}
+
+type regionOut struct {
+	cond string
+	st   *State
+	phis map[*ssa.Phi]string
 }
 
 func (e *Enc) newFrame(fn *ssa.Function, depth int) *Frame {
@@ -941,6 +961,11 @@ func (f *Frame) next(in *ssa.Next) {
 	m := f.val(rng.X)
 	hd := e.comp(f.st, md, e.comps[md])
 	hv := e.comp(f.st, mv, e.comps[mv])
+	if r := f.region; r != nil && r.next == in {
+		v := e.define(f.prefix+in.Name()+".v", e.sortOf(mt.Elem()), fmt.Sprintf("(select (select %s %s) %s)", hv, m, r.key))
+		f.tuples[in] = []string{r.ok, r.key, v}
+		return
+	}
 	k := e.symbolic(f.prefix+in.Name()+".k", mt.Key(), f.st, f.reach)
 	v := e.define(f.prefix+in.Name()+".v", e.sortOf(mt.Elem()), fmt.Sprintf("(select (select %s %s) %s)", hv, m, k))
 	e.assume(f.reach, fmt.Sprintf("(=> %s (and (not (= %s 0)) (select (select %s %s) %s)))", ok, m, hd, m, k))
@@ -1025,7 +1050,14 @@ func (f *Frame) encodeBody(args []string, reach string, st *State) {
 			states = append(states, f.exit[p])
 			preds = append(preds, p)
 		}
-		if b.Index == 0 {
+		if f.region != nil && !f.region.blocks[b] {
+			continue
+		}
+		if f.region != nil && b == f.region.header {
+			f.reach = reach
+			f.st = st.clone()
+			conds, states, preds = nil, nil, nil
+		} else if b.Index == 0 {
 			f.reach = reach
 			f.st = st.clone()
 		} else if len(conds) == 0 {
@@ -1041,6 +1073,14 @@ func (f *Frame) encodeBody(args []string, reach string, st *State) {
 		}
 		f.breach[b] = f.reach
 		isHeader := f.hdrOrd[b] > 0
+		if f.region != nil && b == f.region.header {
+			isHeader = false
+			for _, in := range b.Instrs {
+				if phi, ok := in.(*ssa.Phi); ok {
+					f.vals[phi] = f.region.phiVals[phi]
+				}
+			}
+		}
 		// phis
 		i := 0
 		for ; i < len(b.Instrs); i++ {
@@ -1048,8 +1088,8 @@ func (f *Frame) encodeBody(args []string, reach string, st *State) {
 			if !ok {
 				break
 			}
-			if isHeader {
-				continue // handled by loopHeader
+			if isHeader || (f.region != nil && b == f.region.header) {
+				continue // handled by loopHeader / preset by the region
 			}
 			var ts []string
 			for _, p := range preds {
@@ -1066,6 +1106,10 @@ func (f *Frame) encodeBody(args []string, reach string, st *State) {
 		if isHeader {
 			f.loopHeader(b, preds, conds)
 		}
+		if f.stopAt == b {
+			f.stopped = true
+			return
+		}
 		for ; i < len(b.Instrs); i++ {
 			in := b.Instrs[i]
 			switch in := in.(type) {
@@ -1081,6 +1125,9 @@ func (f *Frame) encodeBody(args []string, reach string, st *State) {
 					rs = append(rs, f.val(r))
 				}
 				f.rets = append(f.rets, retPoint{f.reach, rs, f.st.clone()})
+				if f.region != nil {
+					f.region.exits = append(f.region.exits, f.reach)
+				}
 			case *ssa.Panic:
 				if e.unit.Safety && f.depth == 0 {
 					e.safetyOrd["panic"]++
@@ -1096,6 +1143,23 @@ func (f *Frame) encodeBody(args []string, reach string, st *State) {
 }
 
 func (f *Frame) setEdge(from, to *ssa.BasicBlock, cond string) {
+	if r := f.region; r != nil {
+		if to == r.header {
+			out := regionOut{cond: cond, st: f.st.clone(), phis: map[*ssa.Phi]string{}}
+			pi := predIndex(to, from)
+			for _, in := range to.Instrs {
+				if phi, ok := in.(*ssa.Phi); ok {
+					out.phis[phi] = f.val(phi.Edges[pi])
+				}
+			}
+			r.outs = append(r.outs, out)
+			return
+		}
+		if !r.blocks[to] {
+			r.exits = append(r.exits, cond)
+			return
+		}
+	}
 	key := [2]int{from.Index, to.Index}
 	if old, ok := f.edge[key]; ok {
 		// both successors of an If may be the same block
